@@ -439,6 +439,7 @@ class ChildWorld:
             # ["drive", [loop ops / sample / observe ...], cap]: repeat cyclically until a loop op returns False
             plan, cap = op[1], int(op[2])
             obs_t, obs_n, obs_x, rets, ro = [], [], [], [], []
+            rs_n = rs_clock = rs_ms = 0
             nloop = 0
             done = False
             k = 0
@@ -451,6 +452,11 @@ class ChildWorld:
                     r, _ = self.do_loop_op(eng, o)
                     nloop += 1
                     rets.append(r)
+                    if o[0] == "run":
+                        rs_n += 1
+                        rs_clock += 1 if r else 0
+                        if isinstance(o[2], list) and o[2]:
+                            rs_ms += max(0, self.clock.last - int(o[2][0]))
                     if not r:
                         done = True
                 elif o[0] == "observe":
@@ -469,6 +475,7 @@ class ChildWorld:
                     break
             ev["rets"] = rets
             ev["ro"] = ro
+            ev["run_stats"] = [rs_n, rs_clock, rs_ms]
             ev["nloop"] = nloop
             ev["done"] = done
             if want_obs:
